@@ -81,6 +81,14 @@ def BK(freq4, k_59, unit="u"):
     return p, q
 
 
+@as_function_node("o", validate_output_labels=False)
+def BD(a, b, n=1, z=0):
+    """numeric defaults: broadcast values that are ==-equal to a default but of another type (1.0, True / 0.0, False)"""
+    _log("BD", a, b, n, z)
+    o = ("g", a, b, n, z)
+    return o
+
+
 @as_function_node("t", validate_output_labels=False)
 def _Pack(a, b, c):
     _boom(a, b, c)
